@@ -321,9 +321,15 @@ class Program:
                                                        for x in ast.walk(val)):
                                 out.append((m.rel, n.lineno, "module-level `%s` uses a dynamic builtin" % ast.unparse(n)[:60]))
                             continue
-                    if isinstance(n, ast.If) and where == "module-level function":
-                        t = ast.unparse(n.test)
-                        if "TYPE_CHECKING" in t or "sys.version_info" in t:
+                    if isinstance(n, (ast.If, ast.Try)) and where == "module-level function":
+                        # conditional imports / constants (TYPE_CHECKING, version checks, `try: import x except ImportError`):
+                        # fine as long as the arms only import or bind plain names - no conditional defs
+                        blocks = [n.body, n.orelse] + ([h.body for h in n.handlers] + [n.finalbody] if isinstance(n, ast.Try) else [])
+                        inner = [x for b in blocks for x in b]
+                        if all(isinstance(x, (ast.Import, ast.ImportFrom, ast.Pass)) or
+                               (isinstance(x, (ast.Assign, ast.AnnAssign)) and all(isinstance(t_, ast.Name) for t_ in (x.targets if isinstance(x, ast.Assign) else [x.target]))
+                                and not any(isinstance(y, ast.Call) and isinstance(y.func, ast.Name) and y.func.id in ("exec", "eval", "globals", "locals", "vars", "setattr", "__import__") for y in ast.walk(x)))
+                               for x in inner):
                             continue
                     out.append((m.rel, n.lineno, "module-level statement `%s` is not part of the program model (only imports, defs, classes and bindings of plain names are)"
                                 % ast.unparse(n).splitlines()[0][:70]))
